@@ -1062,9 +1062,16 @@ std::string g_prop = "C09";
 // structural predicate of the staged input, evaluated before a run: some length="N" with N >= 10^6
 // (sbeppc materialises constants / arrays of that length). Used to keep that known finding narrow.
 bool g_huge_length = false;
+// ... and: elements nested at least 5000 deep (the schema parser, the validator and the generators recurse
+// per nesting level without a bound)
+bool g_deep_nesting = false;
 std::string resource_suffix()
 {
     return g_huge_length ? ":huge-length-attribute" : "";
+}
+std::string nesting_suffix()
+{
+    return g_deep_nesting ? ":deep-nesting" : "";
 }
 int g_saved_stdout = -1, g_saved_stderr = -1;
 void restore_stdout()
@@ -1196,6 +1203,38 @@ extern "C" void __assert_fail(const char* expr, const char* file, unsigned int l
     sim::crash_report(sig, std::string("internal assertion `") + expr + "` failed at " + file + ":" + std::to_string(line));
 }
 
+// libstdc++'s precondition checks (-D_GLIBCXX_ASSERTIONS: dereferencing a disengaged optional, indexing past the
+// end of a vector / string / string_view, front() of an empty container ...): without the macro these are silent
+// undefined behaviour in the shipped binary. Interposed like __assert_fail so that the outcome is classified.
+namespace std
+{
+[[noreturn]] void __glibcxx_assert_fail(const char* file, int line, const char* function, const char* condition) noexcept
+{
+    // the standard-library entity whose precondition was violated, without template arguments
+    std::string fn = function ? function : "?";
+    auto with = fn.find(" [with");
+    if(with != std::string::npos) fn.resize(with);
+    for(auto lt = fn.find('<'); lt != std::string::npos; lt = fn.find('<'))
+    {
+        int depth = 0;
+        size_t e = lt;
+        for(; e < fn.size(); e++)
+        {
+            if(fn[e] == '<') depth++;
+            if(fn[e] == '>' && --depth == 0) break;
+        }
+        fn.erase(lt, e < fn.size() ? e - lt + 1 : std::string::npos);
+    }
+    auto paren = fn.find('(');
+    if(paren != std::string::npos) fn.resize(paren);
+    auto sp = fn.rfind(' ');
+    if(sp != std::string::npos) fn = fn.substr(sp + 1);
+    if(!g_in_run) abort(); // the harness itself: an ordinary crash
+    sim::crash_report(g_prop + ":UB:libstdc++-precondition:" + fn, std::string("undefined behaviour in the shipped build: libstdc++ precondition `") + (condition ? condition : "?") + "` of " + (function ? function : "?") + " violated (" + (file ? file : "?") + ":" + std::to_string(line) + ")");
+    abort();
+}
+} // namespace std
+
 namespace
 {
 void on_fatal_signal(int sig)
@@ -1208,7 +1247,7 @@ void on_fatal_signal(int sig)
         return;
     }
     g.active = false;
-    sim::crash_report(g_prop + ":CRASH:" + name + (sig == SIGVTALRM ? resource_suffix() : ""), sig == SIGVTALRM ? "sbeppc exceeded its CPU budget" : std::string("sbeppc died with ") + name + (sig == SIGSEGV ? " (stack overflow if recursion is unbounded)" : ""));
+    sim::crash_report(g_prop + ":CRASH:" + name + (sig == SIGVTALRM ? resource_suffix() + nesting_suffix() : sig == SIGSEGV ? nesting_suffix() : ""), sig == SIGVTALRM ? "sbeppc exceeded its CPU budget" : std::string("sbeppc died with ") + name + (sig == SIGSEGV ? " (stack overflow if recursion is unbounded)" : ""));
 }
 
 void install_handlers()
@@ -2060,6 +2099,36 @@ void apply_mutation(const Op& op)
             const size_t w = (size_t)(op.uarg(2) % 6);
             d.replace(a.b, a.e - a.b, std::string(wraps[w]) + text + wrape[w]);
         }
+        else if(kind == 6)
+        {
+            // nest: the element (a group or a composite is picked when there is one) wrapped in N copies of
+            // itself-like containers: <group>...<group>X</group>...</group>
+            std::vector<size_t> cand;
+            for(size_t k = 1; k < els.size(); k++)
+            {
+                const std::string nm = d.substr(els[k].name_b, els[k].name_e - els[k].name_b);
+                if((nm == "group" || nm == "composite") && !els[k].selfclosing) cand.push_back(k);
+            }
+            if(cand.empty()) return;
+            const El& c = els[cand[(size_t)(op.uarg(1) % cand.size())]];
+            const std::string nm = d.substr(c.name_b, c.name_e - c.name_b);
+            const size_t open_end = d.find('>', c.b) + 1;
+            const std::string open_tag = d.substr(c.b, open_end - c.b), body = d.substr(c.b, c.e - c.b);
+            const size_t n = (size_t)std::min<unsigned long long>(op.uarg(2), 60000);
+            std::string out;
+            out.reserve(body.size() + n * (open_tag.size() + nm.size() + 4));
+            for(size_t k = 0; k < n; k++)
+            {
+                // unique names so that the nesting itself is valid
+                std::string t = open_tag;
+                size_t np = t.find("name=\"");
+                if(np != std::string::npos) t.insert(np + 6, "n" + std::to_string(k) + "_");
+                out += t;
+            }
+            out += body;
+            for(size_t k = 0; k < n; k++) out += "</" + nm + ">";
+            d.replace(c.b, c.e - c.b, out);
+        }
         else
         {
             // graft: an element of another corpus schema, pasted behind / inside an element of this one
@@ -2779,6 +2848,26 @@ Result exec_plan(const Plan& plan)
                     if(digits >= 7) g_huge_length = true;
                 }
             }
+            g_deep_nesting = false;
+            for(auto& kv : g.fs)
+            {
+                if(kv.second.dir || kv.first.rfind("/sim/in/", 0) != 0) continue;
+                const std::string& d = kv.second.data;
+                long depth = 0, deepest = 0;
+                for(size_t i = 0; i + 1 < d.size(); i++)
+                {
+                    if(d[i] != '<') continue;
+                    if(d[i + 1] == '/')
+                        depth--;
+                    else if(d[i + 1] != '?' && d[i + 1] != '!')
+                    {
+                        size_t gt = d.find('>', i);
+                        if(gt != std::string::npos && d[gt - 1] != '/') depth++;
+                    }
+                    deepest = std::max(deepest, depth);
+                }
+                if(deepest >= 5000) g_deep_nesting = true;
+            }
             perturb_heap(pr.heap);
             RunOutcome ro = run_sbeppc(argv_variant(argv_v, schema, outv), pr.faults, pr.yank, pr.diskfull);
             perturb_heap(0);
@@ -3344,8 +3433,17 @@ Plan gen_c09(u64 seed, const std::string& tier)
         int n = (int)fl.range(1, 2);
         for(int i = 0; i < n; i++)
         {
-            const long kind = (long)fl.below(6);
-            mut("mut.elem", {kind, (long long)fl.below(100000), (long long)fl.below(100000), (long long)fl.below(2)}, kind == 5 ? std::vector<std::string>{g_corpus.names[fl.below(g_corpus.names.size())]} : std::vector<std::string>{});
+            long kind = (long)fl.below(6);
+            if(kind == 5 && fl.chance(1, 2)) kind = 7; // graft keeps its own number; 6 is `nest`
+            if(fl.chance(1, 40))
+            {
+                // nesting depth: cheap depths (the cost grows steeply with depth: 80 levels of groups are 0.1 s,
+                // 320 levels more than a minute - those are not offered), or so deep that unbounded recursion shows at once
+                static const long long depths[] = {2, 5, 12, 25, 40, 30000, 60000};
+                mut("mut.elem", {6, (long long)fl.below(100000), depths[fl.below(7)], 0});
+                continue;
+            }
+            mut("mut.elem", {kind, (long long)fl.below(100000), (long long)fl.below(100000), (long long)fl.below(2)}, kind >= 5 ? std::vector<std::string>{g_corpus.names[fl.below(g_corpus.names.size())]} : std::vector<std::string>{});
         }
         if(fl.chance(1, 4)) mut("mut.retarget", {(long long)fl.below(100000), (long long)fl.below(100000)});
     }
